@@ -18,8 +18,8 @@ props = [json.loads(l) for l in open(os.path.join(V, 'properties.jsonl'))]
 man = {
  'version': 1,
  'setup_cmd': './setup.sh',
- 'hooks': {'guard': 'pricelevel_verif', 'enable': "RUSTFLAGS='--cfg pricelevel_verif' (native schedule replay only; no hook is committed yet, the checks registered so far need none)",
-           'baseline_off_cmd': 'cd /repo && cargo test --workspace --no-fail-fast --offline', 'source_commits': [], 'add_only': True},
+ 'hooks': {'guard': 'pricelevel_verif', 'enable': "RUSTFLAGS='--cfg pricelevel_verif' (used only by the native driver to replay a solver-found schedule step by step; E-MIR reads the MIR of the unhooked build)",
+           'baseline_off_cmd': 'cd /repo && cargo test --workspace --no-fail-fast --offline', 'source_commits': ['f9994c1'], 'add_only': True},
  'engines': [
   {'name': 'E-MIR', 'path': 'emir/', 'serves_properties': sorted(k for k in CHECKS), 'kind_free_text': 'own bounded symbolic executor over rustc MIR (merge mode, loop unrolling / loop cuts) -> SMT-LIB2 -> z3/cvc5; native replay driver native/'},
   {'name': 'E-KANI', 'path': 'kani/', 'serves_properties': ['C05'], 'kind_free_text': 'Kani 0.68 / CBMC 6.11 proof harnesses over the compiled crate'},
